@@ -1217,6 +1217,8 @@ class Certificate(HandshakeMsg):
                 index += len(certBytes)+3
             if certificate_list:
                 self._cert_chain = X509CertChain(certificate_list)
+            else:
+                self._cert_chain = None
         else:
             raise AssertionError()
 
